@@ -22,7 +22,7 @@ VISMAP = {"DEFAULT": "default-visibility", "PROTECTED": "protected-visibility"}
 
 
 def plan(tier):
-    return {"n": 200 if tier == "quick" else 2500, "floor": 40 if tier == "quick" else 500}
+    return {"n": 200 if tier == "quick" else 800, "floor": 40 if tier == "quick" else 160}
 
 
 def rule(tier):
